@@ -1,14 +1,315 @@
-"""placeholder; the file-system / file-object model is added with C05/C19/C06"""
-from .values import Unsupported
+"""Field-granular model of binary file objects (trusted stub, DESIGN.md 2.5).
+
+A file is a heap object '$file' with
+   len   : z3 Int, current length           pos : z3 Int, current position
+   int_at(off, k)  : value of the k-byte little-endian unsigned field at offset off        (python closure -> z3 Int)
+   blob_at(off, n) : the n bytes starting at off as an abstract blob                       (python closure -> z3 Blob)
+Writes are read-over-write updates:  the same field reads back the written value, fields that do not overlap the
+written range are unchanged, partially overlapping reads are unspecified (uninterpreted `junk`), so nothing can be
+concluded from them.  Packed integers (struct.pack / Struct.pack) are VPacked(k, value); byte payloads are VBlob.
+Crash points: every write is followed by the current target's crash clauses as obligations (DESIGN.md 2.6); a blob
+write longer than 8 bytes additionally has a torn variant (a prefix of symbolic length was written).
+"""
+import z3
+
+from .values import (Value, VInt, VReal, VBool, VStr, VNone, NONE, VOpt, VSeq, VObj, VOpaque, VBlob, VFunc, Unsupported,
+                     Raised, uid, ite, to_int, BlobSort)
+
+junk_int = z3.Function('junk_int', z3.IntSort(), z3.IntSort(), z3.IntSort(), z3.IntSort())
+junk_blob = z3.Function('junk_blob', z3.IntSort(), z3.IntSort(), z3.IntSort(), BlobSort)
+blob_len = z3.Function('blob_len', BlobSort, z3.IntSort())
+blob_prefix = z3.Function('blob_prefix', BlobSort, z3.IntSort(), BlobSort)     # first n bytes of a blob
+_epoch = [0]
+
+
+class VPacked(Value):
+    """k bytes holding the little-endian unsigned integer v (0 <= v < 256^k)"""
+    shape = 'packed'
+
+    def __init__(self, k, t):
+        self.k = k
+        self.t = t
+
+    def __repr__(self):
+        return 'VPacked(%d, %s)' % (self.k, self.t)
+
+
+def disjoint(o1, n1, o2, n2):
+    return z3.Or(o1 + n1 <= o2, o2 + n2 <= o1)
+
+
+def fresh_file(ex, st, name='fh'):
+    obj = ex.new_ref(st, '$file')
+    f_int = z3.Function(uid(name + '.int'), z3.IntSort(), z3.IntSort(), z3.IntSort())
+    f_blob = z3.Function(uid(name + '.blob'), z3.IntSort(), z3.IntSort(), BlobSort)
+    ln = z3.Int(uid(name + '.len'))
+    st.assume(ln >= 0)
+    h = st.heap[obj.ref]
+    h['len'] = VInt(ln)
+    h['pos'] = VInt(z3.Int(uid(name + '.pos')))
+    h['$int_at'] = lambda off, k: f_int(off, k)
+    h['$blob_at'] = lambda off, n: f_blob(off, n)
+    h['$closed'] = False
+    ex.used_stubs.add('file-object model: field-granular read-over-write, disjoint-frame; partial overlaps unspecified; '
+                      'writes on one handle reach the file in program order')
+    return obj
+
+
+def _file_fresh(ex, st, ty, name, idx):
+    if idx:
+        raise Unsupported('sequence of files')
+    return fresh_file(ex, st, name)
+
+
+def f_len(st, fh):
+    return st.heap[fh.ref]['len'].t
+
+
+def f_int(st, fh, off, k):
+    return st.heap[fh.ref]['$int_at'](off, k)
+
+
+def f_blob(st, fh, off, n):
+    return st.heap[fh.ref]['$blob_at'](off, n)
+
+
+def write_int(ex, st, fh, off, k, v):
+    h = st.heap[fh.ref]
+    old_i, old_b = h['$int_at'], h['$blob_at']
+    _epoch[0] += 1
+    ep = _epoch[0]
+    kk = z3.IntVal(k)
+
+    def int_at(o, n, old_i=old_i):
+        return z3.If(z3.And(o == off, n == kk), v,
+                     z3.If(disjoint(o, n, off, kk), old_i(o, n), junk_int(ep, o, n)))
+
+    def blob_at(o, n, old_b=old_b):
+        return z3.If(disjoint(o, n, off, kk), old_b(o, n), junk_blob(ep, o, n))
+    h['$int_at'], h['$blob_at'] = int_at, blob_at
+    ln = h['len'].t
+    h['len'] = VInt(z3.If(off + kk > ln, off + kk, ln))
+    h['pos'] = VInt(off + kk)
+
+
+def write_blob(ex, st, fh, off, blob, n):
+    h = st.heap[fh.ref]
+    old_i, old_b = h['$int_at'], h['$blob_at']
+    _epoch[0] += 1
+    ep = _epoch[0]
+
+    def int_at(o, k, old_i=old_i):
+        return z3.If(disjoint(o, k, off, n), old_i(o, k), junk_int(ep, o, k))
+
+    def blob_at(o, m, old_b=old_b):
+        return z3.If(z3.And(o == off, m == n), blob,
+                     z3.If(disjoint(o, m, off, n), old_b(o, m), junk_blob(ep, o, m)))
+    h['$int_at'], h['$blob_at'] = int_at, blob_at
+    ln = h['len'].t
+    h['len'] = VInt(z3.If(off + n > ln, off + n, ln))
+    h['pos'] = VInt(off + n)
+
+
+def crash_point(ex, st, what):
+    """the process may die right here: the target's crash clauses must hold in this state"""
+    tgt = ex.cur_target or {}
+    clauses = tgt.get('crash', [])
+    if not clauses or st.entry is None:
+        return
+    n = st.ghost.get('$crashpoints', 0) + 1
+    st.ghost['$crashpoints'] = n
+    sp = st.fork()
+    sp.spec = True
+    sp.old = st.entry
+    env0 = getattr(st.entry, 'env', {})
+    sp.env = dict(env0)
+    qual = tgt['key'].split(':')[1]
+    for i, c in enumerate(clauses):
+        g = ex.spec_bool(sp, c)
+        ex.oblige(st, g, '%s.crash#%d' % (qual, i), 'crash', '%s after %s' % (tgt['key'], what),
+                  {'clause': 'after every write: ' + ' '.join(str(c).split())})
+
+
+# ---- methods of the file object -------------------------------------------------------------------------------------
+def _m_seek(ex, st, v, args, kwargs, node):
+    h = st.heap[v.ref]
+    off = to_int(args[0])
+    whence = args[1] if len(args) > 1 else kwargs.get('whence', VInt(0))
+    w = whence.conc() if isinstance(whence, VInt) else None
+    if w is None:
+        raise Unsupported('seek with symbolic whence')
+    if w == 0:
+        h['pos'] = VInt(off)
+    elif w == 2:
+        h['pos'] = VInt(h['len'].t + off)
+    elif w == 1:
+        h['pos'] = VInt(h['pos'].t + off)
+    return [(st, VInt(h['pos'].t))]
+
+
+def _m_tell(ex, st, v, args, kwargs, node):
+    return [(st, VInt(st.heap[v.ref]['pos'].t))]
+
+
+def _m_read(ex, st, v, args, kwargs, node):
+    h = st.heap[v.ref]
+    pos = h['pos'].t
+    if not args:
+        n = h['len'].t - pos
+        h['pos'] = VInt(h['len'].t)
+        return [(st, VBlob(h['$blob_at'](pos, n), n))]
+    n = to_int(args[0])
+    if z3.is_int_value(n) and n.as_long() in (1, 2, 4, 5, 8):
+        k = n.as_long()
+        # a short read at the end of the file gives fewer bytes: fork on it
+        res = []
+        for s2, ok in ex.branch(st, pos + k <= h['len'].t):
+            h2 = s2.heap[v.ref]
+            if ok:
+                val = h2['$int_at'](pos, z3.IntVal(k))
+                s2.assume(z3.And(val >= 0, val < 256 ** k))
+                h2['pos'] = VInt(pos + k)
+                res.append((s2, VPacked(k, val)))
+            else:
+                res.append((s2, VPacked(-1, z3.Int(uid('short')))))
+        return res
+    res = []
+    for s2, ok in ex.branch(st, z3.And(n >= 0, pos + n <= h['len'].t)):
+        h2 = s2.heap[v.ref]
+        if ok:
+            b = h2['$blob_at'](pos, n)
+            s2.assume(blob_len(b) == n)
+            h2['pos'] = VInt(pos + n)
+            res.append((s2, VBlob(b, n)))
+        else:
+            m = z3.Int(uid('shortn'))
+            s2.assume(z3.And(m >= 0, m < n))
+            res.append((s2, VBlob(z3.Const(uid('shortblob'), BlobSort), m)))
+    return res
+
+
+def _m_write(ex, st, v, args, kwargs, node):
+    h = st.heap[v.ref]
+    pos = h['pos'].t
+    d = args[0]
+    if isinstance(d, VPacked):
+        write_int(ex, st, v, pos, d.k, d.t)
+        crash_point(ex, st, 'write(%d bytes)' % d.k)
+        return [(st, VInt(d.k))]
+    if isinstance(d, VBlob):
+        # torn variant: the process dies after a prefix of the payload reached the file
+        tgt = ex.cur_target or {}
+        if tgt.get('crash'):
+            torn = st.fork()
+            m = z3.Int(uid('torn'))
+            torn.assume(z3.And(m >= 0, m < d.len))
+            write_blob(ex, torn, v, pos, blob_prefix(d.t, m), m)
+            crash_point(ex, torn, 'torn write')
+        write_blob(ex, st, v, pos, d.t, d.len)
+        crash_point(ex, st, 'write(blob)')
+        return [(st, VInt(d.len))]
+    raise Unsupported('file.write(%r)' % (d,))
+
+
+def _m_close(ex, st, v, args, kwargs, node):
+    st.heap[v.ref]['$closed'] = True
+    return [(st, NONE)]
+
+
+FILE_METHODS = {
+    'seek': _m_seek, 'tell': _m_tell, 'read': _m_read, 'write': _m_write, 'close': _m_close,
+    'flush': lambda ex, st, v, a, k, n: [(st, NONE)],
+    '__enter__': lambda ex, st, v: [(st, v)],
+    '__exit__': lambda ex, st, v, kind, val: [(st, None)],
+    '__bool__': lambda ex, st, v: z3.BoolVal(True),
+}
+
+
+# ---- struct ----------------------------------------------------------------------------------------------------------
+FMT_SIZE = {'<Q': 8, '<L': 4, '<I': 4, '<q': 8, '<H': 2, '<B': 1}
+
+
+def struct_pack(ex, st, args, kwargs, node):
+    fmt = args[0].conc() if isinstance(args[0], VStr) else None
+    if fmt not in FMT_SIZE or len(args) != 2:
+        raise Unsupported('struct.pack(%r)' % (fmt,))
+    k = FMT_SIZE[fmt]
+    v = to_int(args[1])
+    res = []
+    for s2, ok in ex.branch(st, z3.And(v >= 0, v < 256 ** k)):
+        res.append((s2, VPacked(k, v) if ok else Raised('struct.error', note='value out of range for %s' % fmt)))
+    ex.used_stubs.add('struct little-endian pack/unpack of unsigned ints: value <-> k-byte field (A-struct)')
+    return res
+
+
+def struct_unpack(ex, st, args, kwargs, node):
+    fmt = args[0].conc() if isinstance(args[0], VStr) else None
+    if fmt not in FMT_SIZE:
+        raise Unsupported('struct.unpack(%r)' % (fmt,))
+    return _unpack(ex, st, FMT_SIZE[fmt], args[1])
+
+
+def _unpack(ex, st, k, data):
+    if not isinstance(data, VPacked):
+        raise Unsupported('unpack of %r' % (data,))
+    if data.k != k:
+        return [(st, Raised('struct.error', note='unpack requires a buffer of %d bytes' % k))]
+    return [(st, VSeq([VInt(data.t)], kind='tuple'))]
+
+
+def struct_Struct(ex, st, args, kwargs, node):
+    fmt = args[0].conc() if isinstance(args[0], VStr) else None
+    if fmt not in FMT_SIZE:
+        raise Unsupported('struct.Struct(%r)' % (fmt,))
+    # a stateless object: the field width is part of the stub class name (module constants such as
+    # INT64LE = struct.Struct('<Q') are evaluated outside any heap)
+    return [(st, VObj(-FMT_SIZE[fmt], '$struct%d' % FMT_SIZE[fmt]))]
+
+
+def _s_pack(ex, st, v, args, kwargs, node):
+    k = -v.ref
+    return struct_pack(ex, st, [VStr({8: '<Q', 4: '<L', 2: '<H', 1: '<B'}[k])] + list(args), kwargs, node)
+
+
+def _s_unpack(ex, st, v, args, kwargs, node):
+    return _unpack(ex, st, -v.ref, args[0])
+
+
+# ---- blobs ----------------------------------------------------------------------------------------------------------
+def blob_concat(a, b):
+    raise Unsupported('blob concatenation')
+
+
+def blob_slice(ex, st, base, lo, hi):
+    raise Unsupported('blob slice')
 
 
 def b_open(ex, st, args, kwargs, node):
     raise Unsupported('open()')
 
 
-def blob_concat(a, b):
-    raise Unsupported('blob concat')
+def install(B):
+    B.STUB_TYPES['file'] = _file_fresh
+    B.STUB_CLASSES['$file'] = FILE_METHODS
+    for k_ in (1, 2, 4, 8):
+        B.STUB_CLASSES['$struct%d' % k_] = {'pack': _s_pack, 'unpack': _s_unpack}
+    B.EXTERNS['struct.pack'] = struct_pack
+    B.EXTERNS['struct.unpack'] = struct_unpack
+    B.EXTERNS['struct.Struct'] = struct_Struct
+    B.EXTERNS['os.SEEK_SET'] = VInt(0)
+    B.EXTERNS['os.SEEK_CUR'] = VInt(1)
+    B.EXTERNS['os.SEEK_END'] = VInt(2)
 
+    # spec dialect access to the file model
+    def sp_flen(ex, st, args, kwargs, node):
+        return [(st, VInt(f_len(st, args[0])))]
 
-def blob_slice(ex, st, base, lo, hi):
-    raise Unsupported('blob slice')
+    def sp_fint(ex, st, args, kwargs, node):
+        return [(st, VInt(f_int(st, args[0], to_int(args[1]), to_int(args[2]))))]
+
+    def sp_fblob(ex, st, args, kwargs, node):
+        n = to_int(args[2])
+        return [(st, VBlob(f_blob(st, args[0], to_int(args[1]), n), n))]
+    B.BUILTINS['f_len'] = sp_flen
+    B.BUILTINS['f_int'] = sp_fint
+    B.BUILTINS['f_blob'] = sp_fblob
